@@ -601,7 +601,7 @@ func init() {
 			if f, ok := a[0].(float64); ok {
 				return math.IsNaN(f)
 			}
-			if RealMode {
+			if RealMode || a[0].(*Sym).Finite {
 				return false
 			}
 			return symBool("(fp.isNaN " + lit(a[0]) + ")")
@@ -611,6 +611,9 @@ func init() {
 				return math.IsInf(a[0].(float64), int(asInt64(a[1])))
 			}
 			if RealMode {
+				return false
+			}
+			if sf, ok := a[0].(*Sym); ok && sf.Finite {
 				return false
 			}
 			f := lit(a[0])
@@ -636,6 +639,9 @@ func init() {
 			if f, ok := a[0].(float64); ok {
 				return math.Floor(f)
 			}
+			if sf, ok := a[0].(*Sym); ok && sf.IntE != "" {
+				return sf
+			}
 			if RealMode {
 				return mk(types.Float64, "(to_real (to_int "+lit(a[0])+"))")
 			}
@@ -644,6 +650,9 @@ func init() {
 		"math.Ceil": func(fr *frame, a []value) value {
 			if f, ok := a[0].(float64); ok {
 				return math.Ceil(f)
+			}
+			if sf, ok := a[0].(*Sym); ok && sf.IntE != "" {
+				return sf
 			}
 			if RealMode {
 				return mk(types.Float64, "(to_real (- (to_int (- "+lit(a[0])+"))))")
@@ -654,6 +663,9 @@ func init() {
 			if f, ok := a[0].(float64); ok {
 				return math.Trunc(f)
 			}
+			if sf, ok := a[0].(*Sym); ok && sf.IntE != "" {
+				return sf
+			}
 			if RealMode {
 				x := lit(a[0])
 				return mk(types.Float64, fmt.Sprintf("(to_real (ite (>= %s 0.0) (to_int %s) (- (to_int (- %s)))))", x, x, x))
@@ -663,6 +675,18 @@ func init() {
 		"math.Remainder": func(fr *frame, a []value) value {
 			if allConcrete(a) {
 				return math.Remainder(a[0].(float64), a[1].(float64))
+			}
+			if ia, ok := integralOf(a[0]); RealMode && ok {
+				if ib, ok := integralOf(a[1]); ok {
+					// integral operands: r = x - y*n with n = x/y rounded to nearest, ties to even
+					eng.assumeSilently(symBool("(distinct "+ib+" 0)"), "real mode: float remainder by zero excluded")
+					tq := mk(types.Int, truncDivInt(ia, ib))
+					r := mk(types.Int, fmt.Sprintf("(- %s (* %s %s))", ia, ib, tq.E)) // truncated remainder, sign of x
+					// candidate adjustments: compare 2|r| with |y|
+					adj := fmt.Sprintf("(let ((r2 (* 2 (abs %s))) (ay (abs %s))) (ite (or (> r2 ay) (and (= r2 ay) (distinct (mod %s 2) 0))) (ite (>= %s 0) (- %s ay) (+ %s ay)) %s))",
+						r.E, ib, tq.E, r.E, r.E, r.E, r.E)
+					return realOfInt(types.Float64, adj)
+				}
 			}
 			if RealMode {
 				// IEEE remainder: x - y*rne(x/y); exact on the integral domain used in real mode
@@ -679,6 +703,13 @@ func init() {
 		"math.Mod": func(fr *frame, a []value) value {
 			if allConcrete(a) {
 				return math.Mod(a[0].(float64), a[1].(float64))
+			}
+			if ia, ok := integralOf(a[0]); RealMode && ok {
+				if ib, ok := integralOf(a[1]); ok {
+					eng.assumeSilently(symBool("(distinct "+ib+" 0)"), "real mode: float modulo by zero excluded")
+					tq := mk(types.Int, truncDivInt(ia, ib))
+					return realOfInt(types.Float64, fmt.Sprintf("(- %s (* %s %s))", ia, ib, tq.E))
+				}
 			}
 			if RealMode {
 				x, y := lit(a[0]), lit(a[1])
@@ -785,6 +816,8 @@ func init() {
 		externals[k] = v
 	}
 	externals["internal/reflectlite.TypeOf"] = ext۰reflect۰TypeOf
+	externals["internal/stringslite.Clone"] = func(fr *frame, a []value) value { return a[0] }
+	externals["strings.Clone"] = func(fr *frame, a []value) value { return a[0] }
 	externals["time.runtimeNano"] = func(fr *frame, a []value) value { return int64(0) }
 	externals["time.now"] = func(fr *frame, a []value) value {
 		used("time.now (model: fixed instant 2023-11-14T22:13:20Z)")
